@@ -358,7 +358,11 @@ class error_997_visitor(error_visitor.error_visitor):
         #seg_base = ['AK3', err_seg.seg_id, '%i' % err_seg.seg_count]
         valid_AK3_codes = ('1', '2', '3', '4', '5', '6', '7', '8')
         seg_base = pyx12.segment.Segment('AK3', '~', '*', ':')
-        seg_base.append(err_seg.seg_id)
+        seg_id = err_seg.seg_id
+        if seg_id and any(term in seg_id for term in (self.seg_term, self.ele_term, self.subele_term)):
+            # a segment ID holding one of our delimiters cannot be copied; AK302 still locates it
+            seg_id = ''
+        seg_base.append(seg_id)
         seg_base.append('%i' % err_seg.seg_count)
         if err_seg.ls_id:
             seg_base.append(err_seg.ls_id)
